@@ -107,7 +107,7 @@ M_BUSY = "rxcmd_ignored_while_register_write_pending"
 M_EDGE = "rxactive_rxcmd_ignored_without_change_of_previous_rxcmd"
 M_LAT = "first_byte_directly_after_rxactive_rxcmd_lost"
 M_SESS = "session_valid_low_while_vbus_valid"
-Collector.KNOWN = (M_BUSY, M_EDGE, M_LAT, M_SESS)
+Collector.KNOWN = (M_BUSY, M_EDGE, M_LAT)       # M_SESS was repaired in /repo (f9208f8): it is reported like any other violation
 
 
 def make_ulpi(with_rst=False):
@@ -607,20 +607,20 @@ def judge_receive(res, wire, busy, obs, phy, have_busy=True):
             if got in exp:
                 continue
             cmd = s_cmd[c - 1]
-            if field == "session_valid" and got == 0 and any(((x >> 2) & 3) == 3 for x in cands):
-                res.violation(M_SESS, "cycle %d: last RxCmd %#04x has VbusState=11 (above VA_VBUS_VLD, so also above VA_SESS_VLD) but session_valid=0" % (c, cmd))
-                continue
+            # deviation-aware pass: the DUT may show the (correct, ULPI table 8) decode of a stale RxCmd because a newer one was
+            # presented while a register write was pending.  (The former `session_valid == 0b10` deviation is repaired in /repo,
+            # f9208f8, and is no longer part of this pass: a regression of that repair is reported under its own name below.)
             qexp = set(decode_rxcmd(x)[field] for x in qc)
-            if field == "session_valid":
-                qexp = set(int(((x >> 2) & 3) == 2) for x in qc)      # deviation M_SESS on top of a stale RxCmd
             reasons = [r for r in cmd_reason[c - 1 - W:c] if r]
             if got in qexp and reasons:
                 res.violation(reasons[0], "cycle %d: %s=%d but the most recent RxCmd (%#04x) says %s; that RxCmd was presented while a register write was pending; wire around: %s"
                               % (c, field, got, cmd, sorted(exp), fmt_wire(wire, c - 8, c)))
+            elif field == "session_valid" and got == 0 and any(((x >> 2) & 3) == 3 for x in (qc if reasons else cands)):
+                res.violation(M_SESS, "cycle %d: RxCmd %#04x has VbusState=11 (above VA_VBUS_VLD, so also above VA_SESS_VLD) but session_valid=0; wire around: %s"
+                              % (c, cmd, fmt_wire(wire, c - 8, c)))
             else:
                 res.violation("status_%s_mismatch" % field, "cycle %d: %s=%d but the most recent RxCmd (%#04x) says %s; wire around: %s"
                               % (c, field, got, cmd, sorted(exp), fmt_wire(wire, c - 8, c)))
-
 
 def fmt_wire(wire, lo, hi):
     out = []
